@@ -192,6 +192,7 @@ var c19Texts = []string{
 type c19Op struct {
 	uri, text int
 	multi    bool // didChange with two content changes (the last one wins)
+	reopen   bool // didClose followed by didOpen (when the document is open)
 }
 
 // freshBattery caches, per text, the responses of a fresh server that only opened that text.
@@ -234,12 +235,13 @@ func runC19(w *mc.Worker) {
 	var ops []c19Op
 	for u := 0; u < nURI; u++ {
 		for t := 0; t < nText; t++ {
-			ops = append(ops, c19Op{u, t, false})
+			ops = append(ops, c19Op{u, t, false, false})
 		}
 	}
 	// the multi-change variant, for one text per URI
 	for u := 0; u < nURI; u++ {
-		ops = append(ops, c19Op{u, 1, true})
+		ops = append(ops, c19Op{u, 1, true, false})
+		ops = append(ops, c19Op{u, 1, false, true}, c19Op{u, 0, false, true})
 	}
 	neverOpened := uris[3]
 
@@ -281,6 +283,10 @@ func runC19(w *mc.Worker) {
 			if _, opened := model[uri]; !opened {
 				out, p = s.open(uri, text)
 				desc = append(desc, fmt.Sprintf("didOpen(%s, T%d)", uri, op.text))
+			} else if op.reopen {
+				s.call("textDocument/didClose", map[string]any{"textDocument": map[string]any{"uri": uri}})
+				out, p = s.open(uri, text)
+				desc = append(desc, fmt.Sprintf("didClose(%s); didOpen(%s, T%d)", uri, uri, op.text))
 			} else if op.multi {
 				out, p = s.change(uri, texts[(op.text+1)%nText], text)
 				desc = append(desc, fmt.Sprintf("didChange(%s, [T%d, T%d])", uri, (op.text+1)%nText, op.text))
